@@ -4,7 +4,7 @@ from __future__ import annotations
 
 from .. import smallworld, gen, probe, spec
 from ..probe import violation
-from .common import scale_leg, call, grow_while_asking, use_as_input_of_derivations
+from .common import change_delimiter_mid_life, scale_leg, call, grow_while_asking, use_as_input_of_derivations
 
 PROP = "C07"
 LEVEL = "exploration"
@@ -142,6 +142,9 @@ def run_case(ctx, g, rng):
         S.counters["wl:strings"] += 1
         if is_u and is_c:
             S.counters["wl:strings-both-uri-and-curie"] += 1
+    if g % 5 == 2 and not hooked:
+        change_delimiter_mid_life(c, [p + d + "1" for p in allp[:3]] + [u + "1" for u in allu[:3]], rng,
+                                  lambda cc, q: relate(cc, q, cc.delimiter, {**w, "delimiter": cc.delimiter, "note": "delimiter changed mid-life"}))
     for p in allp[:3]:
         call(c.format_curie, p, rng.choice(gen.IDS))
     if g % 4 == 3:
